@@ -1,12 +1,24 @@
 (* MV.C06.Properties — property C06 ("parent and watchers learn of a termination exactly once") on the kernel model.
-   PARTIAL: concrete executions of each clause (parent that also watches, late watch of a terminating actor, watch of an
-   address that never existed, non-watchers); the universally quantified counting theorem is not proved yet — the clause
-   is checked on every run by the lockstep correspondence and the monitors C06:spurious-notification / C06:duplicate-notification. *)
-From MV Require Import Lib.ListX Kernel.Model Kernel.Run Kernel.Lifecycle.
+   Proved for every role table and every run: the last sentence of the property ("actors that did not watch and are not
+   the parent are not notified", C06_notified_only_if_entitled). PARTIAL for the counting clause ("exactly one"): concrete
+   executions of each case (parent that also watches, late watch of a terminating actor, watch of an address that never
+   existed, non-watchers); the universally quantified counting theorem is not proved — that clause is checked on every
+   run by the lockstep correspondence and the monitors C06:duplicate-notification / C06:missing-notification. *)
+From MV Require Import Lib.ListX Kernel.Model Kernel.Run Kernel.Lifecycle Kernel.Watch.
 Open Scope Z_scope.
 
 Definition count_to (observer who : ref) (os : list (list obs)) : nat :=
   length (filter (fun o => match o with OH a _ (TTO w) _ _ => (a =? observer) && (w =? who) | _ => false end) (concat os)).
+
+(* No spurious notification. After ANY run (any role table, any label sequence: external sends / spawns / terminations /
+   shutdown interleaved with message-processing steps of any mailbox, failures and restarts included) from the freshly
+   started system, if the next step shows address x handling OnTerminated(w) (w other than x itself), then x issued a
+   Watch for w earlier in that run, or x is the parent of an actor object created under address w. *)
+Theorem C06_notified_only_if_entitled : forall roles ls s os l s' o x i w sn sd,
+  krun roles kinit ls = Some (s, os) -> kstep roles s l = Some (s', o) -> In (OH x i (TTO w) sn sd) o ->
+  In (OW x w) (concat os) \/ exists c ac, get s c = Some ac /\ a_tok ac = w /\ a_parent ac = x.
+Proof. exact notified_only_if_entitled. Qed.
+Print Assumptions C06_notified_only_if_entitled.
 
 (* the terminated actor's own steps never produce a notification to itself or anyone once it is Terminated *)
 Theorem C06_terminated_is_silent_partial : forall roles s u a s' o,
